@@ -33,6 +33,8 @@ func c10Strings() []scalar {
 		{"backtick", "a`b"}, {"backticks", "``` code ```"}, {"dquote", `say "hi"`}, {"squote", "it's"}, {"backslash", `a\b\n`}, {"newline", "l1\nl2"}, {"crlf", "l1\r\nl2"},
 		{"tab", "a\tb"}, {"ctrl", "a\u0001b"}, {"accent", "café"}, {"cjk", "日本語"}, {"emoji", "😀"}, {"u2028", "a\u2028b"}, {"html", "<b>&amp;</b>"}, {"tmpl", "{{ .Name }}"},
 		{"percent", "100%s %d"}, {"dollar", "${x} $1"}, {"backtick+plus", "` + \"x\" + `"}, {"nul-escape", `\u0000`}, {"comment", "*/ x /*"},
+		// text that spells a JSON escape (the embedded document is JSON inside Go source)
+		{"literal-u003c", `a\u003cb`}, {"literal-u0026", `x\u0026y\u003e`}, {"literal-quote-escape", `say \"hi\"`}, {"literal-backslash-backtick", "a\\`b"},
 	}
 }
 
@@ -197,7 +199,7 @@ func dropKeys(v interface{}, keys map[string]bool) interface{} {
 func RunC10(tier, replay string) int {
 	quietLogs()
 	r := evid.New("C10", tier)
-	r.Rule = "documents = every 1-feature member of the 9-slot spec family (parameters, bodies, responses, definition graphs incl. cycles, metadata, extensions), inline body/response schemas from grammar G contexts x representative leaves (the shapes that make model planning rewrite the loaded document), 20 hostile string contents (backticks, quotes, control and non-ASCII characters, template and format verbs) in description/summary/default/enum/extension positions, definitions named like generator-synthesised names; x input format {JSON, YAML} x flatten mode {minimal, full, expand}. Each is generated by the real `swagger generate server`, COMPILED; restapi.SwaggerJSON, GET /swagger.json and restapi.FlatSwaggerJSON are read from the running code. distinct = (document, format, mode); non-trivial = all three blobs compared"
+	r.Rule = "documents = every 1-feature member of the 9-slot spec family (parameters, bodies, responses, definition graphs incl. cycles, metadata, extensions), inline body/response schemas from grammar G contexts x representative leaves (the shapes that make model planning rewrite the loaded document), 24 hostile string contents (backticks, quotes, control and non-ASCII characters, template and format verbs) in description/summary/default/enum/extension positions, definitions named like generator-synthesised names; x input format {JSON, YAML} x flatten mode {minimal, full, expand}. Each is generated by the real `swagger generate server`, COMPILED; restapi.SwaggerJSON, GET /swagger.json and restapi.FlatSwaggerJSON are read from the running code. distinct = (document, format, mode); non-trivial = all three blobs compared"
 	r.Assume = []string{"$ref resolution by go-openapi/spec.ExpandSpec on both sides", "x-go-gen-location (added by flatten) is ignored in the flattened document"}
 	s := NewScratch("C10")
 	defer s.Close()
